@@ -287,21 +287,56 @@ theorem greedy_spec (R : Cand → Cand → Prop) (cs : List Cand) (hR : cs.Pairw
             · exact Or.inr (Or.inr (Or.inl h))
           · exact Or.inr (Or.inr (Or.inr ⟨c', List.mem_cons_of_mem _ hc', hr, he⟩))
 
+/-- the candidate order, spelled out: descending similarity, then "same fingerprint first" -/
+theorem candLe_iff (a b : Cand) :
+    candLe a b = true ↔ b.sim ≤ a.sim ∧ (a.sim = b.sim → b.same = true → a.same = true) := by
+  simp only [candLe, candLt, Bool.not_eq_true', Bool.or_eq_false_iff, Bool.and_eq_false_iff,
+    decide_eq_false_iff_not, Bool.not_eq_false', Rat.not_lt]
+  constructor
+  · rintro ⟨h1, h2⟩
+    refine ⟨h1, fun he hb => ?_⟩
+    rcases h2 with (h2 | h2) | h2
+    · exact absurd he.symm h2
+    · rw [hb] at h2; cases h2
+    · exact h2
+  · rintro ⟨h1, h2⟩
+    refine ⟨h1, ?_⟩
+    by_cases he : b.sim = a.sim
+    · cases hb : b.same
+      · exact Or.inl (Or.inr rfl)
+      · exact Or.inr (h2 he.symm hb)
+    · exact Or.inl (Or.inl he)
+
 theorem candLe_trans (a b c : Cand) : candLe a b = true → candLe b c = true → candLe a c = true := by
-  simp only [candLe, decide_eq_true_eq]
-  intro h1 h2
-  exact Rat.le_trans h2 h1
+  simp only [candLe_iff]
+  rintro ⟨h1, h2⟩ ⟨h3, h4⟩
+  refine ⟨Rat.le_trans h3 h1, fun he hc => ?_⟩
+  have hab : a.sim = b.sim := Rat.le_antisymm (he ▸ h3) h1
+  exact h2 hab (h4 (hab ▸ he) hc)
 
 theorem candLe_total (a b : Cand) : (candLe a b || candLe b a) = true := by
-  simp only [candLe, Bool.or_eq_true, decide_eq_true_eq]
-  exact Rat.le_total
+  simp only [Bool.or_eq_true, candLe_iff]
+  rcases Rat.le_total (a := a.sim) (b := b.sim) with h | h
+  · by_cases h' : b.sim ≤ a.sim
+    · have he : a.sim = b.sim := Rat.le_antisymm h h'
+      cases ha : a.same
+      · exact Or.inr ⟨h, fun _ h => by cases h⟩
+      · exact Or.inl ⟨h', fun _ _ => rfl⟩
+    · exact Or.inr ⟨h, fun he => absurd (he ▸ Rat.le_refl) h'⟩
+  · by_cases h' : a.sim ≤ b.sim
+    · have he : a.sim = b.sim := Rat.le_antisymm h' h
+      cases ha : a.same
+      · exact Or.inr ⟨h', fun _ h => by cases h⟩
+      · exact Or.inl ⟨h, fun _ _ => rfl⟩
+    · exact Or.inl ⟨h, fun he => absurd (he ▸ Rat.le_refl) h'⟩
 
-/-- the selection made by the matcher -/
-theorem chosenOf_spec (uo un : List FnEntry) (thr : Rat) :
+/-- the selection made by the matcher; a candidate that was not chosen is blocked by a chosen one
+    that the candidate order places no later -/
+theorem chosenOf_spec' (uo un : List FnEntry) (thr : Rat) :
     (∀ c ∈ chosenOf uo un thr, c ∈ candidates uo un thr) ∧
     ((chosenOf uo un thr).map (·.i)).Nodup ∧ ((chosenOf uo un thr).map (·.j)).Nodup ∧
     ∀ c ∈ candidates uo un thr, c ∈ chosenOf uo un thr ∨
-      ∃ c' ∈ chosenOf uo un thr, c.sim ≤ c'.sim ∧ (c'.i = c.i ∨ c'.j = c.j) := by
+      ∃ c' ∈ chosenOf uo un thr, candLe c' c = true ∧ (c'.i = c.i ∨ c'.j = c.j) := by
   obtain ⟨sel, h1, h2, _, h4, h5, h6⟩ :=
     greedy_spec (fun a b => candLe a b = true) _
       (List.pairwise_mergeSort candLe_trans candLe_total (candidates uo un thr)) [] [] []
@@ -313,12 +348,25 @@ theorem chosenOf_spec (uo un : List FnEntry) (thr : Rat) :
   · exact Or.inl h
   · simp at h
   · simp at h
-  · exact Or.inr ⟨c', hc', by simpa [candLe] using hr, he⟩
+  · exact Or.inr ⟨c', hc', hr, he⟩
+
+/-- the selection made by the matcher -/
+theorem chosenOf_spec (uo un : List FnEntry) (thr : Rat) :
+    (∀ c ∈ chosenOf uo un thr, c ∈ candidates uo un thr) ∧
+    ((chosenOf uo un thr).map (·.i)).Nodup ∧ ((chosenOf uo un thr).map (·.j)).Nodup ∧
+    ∀ c ∈ candidates uo un thr, c ∈ chosenOf uo un thr ∨
+      ∃ c' ∈ chosenOf uo un thr, c.sim ≤ c'.sim ∧ (c'.i = c.i ∨ c'.j = c.j) := by
+  obtain ⟨h1, h2, h3, h4⟩ := chosenOf_spec' uo un thr
+  refine ⟨h1, h2, h3, fun c hc => ?_⟩
+  rcases h4 c hc with h | ⟨c', hc', hr, he⟩
+  · exact Or.inl h
+  · exact Or.inr ⟨c', hc', ((candLe_iff _ _).1 hr).1, he⟩
 
 theorem mem_candidates {uo un : List FnEntry} {thr : Rat} {c : Cand} :
     c ∈ candidates uo un thr ↔
       ∃ o w ot nt, uo[c.i]? = some o ∧ un[c.j]? = some w ∧ o.topo = some ot ∧ w.topo = some nt ∧
-        fuzzyHash ot = fuzzyHash nt ∧ c.sim = topoSimilarity ot nt ∧ thr ≤ c.sim := by
+        fuzzyHash ot = fuzzyHash nt ∧ c.sim = topoSimilarity ot nt ∧ thr ≤ c.sim ∧
+        c.same = decide (o.fp = w.fp) := by
   unfold candidates
   simp only [List.mem_flatMap, Prod.exists, List.mem_zipIdx_iff_getElem?]
   constructor
@@ -335,8 +383,8 @@ theorem mem_candidates {uo un : List FnEntry} {thr : Rat} {c : Cand} :
         split_ifs at hc with hf ht
         simp only [Option.some.injEq] at hc
         subst hc
-        exact ⟨o, w, ot, nt, hoi, hwj, hot, hnt, hf, rfl, ht⟩
-  · rintro ⟨o, w, ot, nt, hoi, hwj, hot, hnt, hf, hs, ht⟩
+        exact ⟨o, w, ot, nt, hoi, hwj, hot, hnt, hf, rfl, ht, rfl⟩
+  · rintro ⟨o, w, ot, nt, hoi, hwj, hot, hnt, hf, hs, ht, hsame⟩
     refine ⟨o, c.i, hoi, ?_⟩
     simp only [hot, List.mem_filterMap, Prod.exists, List.mem_zipIdx_iff_getElem?]
     refine ⟨w, c.j, hwj, ?_⟩
